@@ -202,6 +202,10 @@ func NewWorld(t *testing.T, kind string, tp int64, opt string, ska, skb int64) *
 			cfg.TrustingPeriod = trusting
 		}
 	}
+	// the two channel ends are bound to DIFFERENT port ids (both routed to the mock module by the port router's
+	// prefix matching), and ibctesting already gives them different channel ids: a handler that mixes up source and
+	// destination identifiers cannot go unnoticed
+	w.path.EndpointB.ChannelConfig.PortID = "mockx"
 	switch kind {
 	case "UNORDERED":
 		w.path.Setup()
